@@ -24,7 +24,7 @@ Proof. vm_cast_no_check (@eq_refl bool true). Qed.
    the reader, kills and joins the child, closes the read end and re-raises (candidate repair of C17-K5) *)
 Definition protected_parent_prog : list pop :=
   [ PRequirePipe; PPipe; PMkProcess; PStart; PCloseTx; PNewEvent; PGetLoop; PAddReader;
-    PIfNotPollWaitH 4; PRemoveReader; PKill; PJoin; PCloseRx; PReraise;
+    PIfNotPollWaitH 4; PRemoveReader; PKill KSigKill; PJoin; PCloseRx; PReraise;
     PRemoveReader; PClearEvent;
     PRecvDefer [([EOFErrorC; OSErrorC], PASetChildProcessError)]; PJoin; PCloseRx; PReraise;
     PRaiseIfError; PReturn ].
@@ -37,11 +37,27 @@ Proof. vm_cast_no_check (@eq_refl bool true). Qed.
    a large result the child blocks in write() while the parent blocks in join(). *)
 Definition join_first_parent_prog : list pop :=
   [ PRequirePipe; PPipe; PMkProcess; PStart; PCloseTx; PNewEvent; PGetLoop; PAddReader;
-    PIfNotPollWaitH 4; PRemoveReader; PKill; PJoin; PCloseRx; PReraise;
+    PIfNotPollWaitH 4; PRemoveReader; PKill KSigKill; PJoin; PCloseRx; PReraise;
     PRemoveReader; PClearEvent;
     PJoin;
     PRecvDefer [([EOFErrorC; OSErrorC], PASetChildProcessError)]; PCloseRx; PReraise;
     PRaiseIfError; PReturn ].
 
 Lemma join_first_fails_sweep : check_all join_first_parent_prog Gen.Subproc.child_prog true true = false.
+Proof. vm_cast_no_check (@eq_refl bool false). Qed.
+
+(* reference: the current parent program with process.terminate() (SIGTERM) in place of process.kill()
+   (SIGKILL) in the cleanup handler around the wait - the "stop the worker gracefully" edit.  The
+   behaviours include children in which SIGTERM is not fatal (`b_term_fatal` = false: the application's
+   own SIGTERM handler / SIG_IGN is inherited by fork): there the handler goes on to process.join() with
+   the callee still computing, i.e. the coroutine holds the loop thread in a synchronous wait for as long
+   as the callee runs (fact F4, f_nonblocking, fails). *)
+Definition terminate_parent_prog : list pop :=
+  [ PRequirePipe; PPipe; PMkProcess; PStart; PCloseTx; PNewEvent; PGetLoop; PAddReader;
+    PIfNotPollWaitH 4; PRemoveReader; PKill KSigTerm; PJoin; PCloseRx; PReraise;
+    PRemoveReader; PClearEvent;
+    PRecvDefer [([EOFErrorC; OSErrorC], PASetChildProcessError)]; PJoin; PCloseRx; PReraise;
+    PRaiseIfError; PReturn ].
+
+Lemma terminate_fails_sweep : check_all terminate_parent_prog Gen.Subproc.child_prog true true = false.
 Proof. vm_cast_no_check (@eq_refl bool false). Qed.
